@@ -33,7 +33,7 @@ def frame_monitor(ctx, state, world, hist, outs, runner):
         base = dict(prev)
         if home and home not in base and home in cur and "W" in world[1][ui][1].get(home, ""):
             base[home] = ("TNone", (), {})        # created by the gate (needs W on the home) before the handler ran
-        if not ok or kind in ("RGet", "RPropfind", "RMultiget"):
+        if not ok or kind in ("RGet", "RPropfind", "RMultiget", "RQuery"):
             if cur != base:
                 err = "request answered %s but the stored data changed" % o[0]
         elif kind == "RPut" and o[1][0] == "CPEtagItem":
